@@ -185,3 +185,9 @@ package common
 //@ trusted func SafeMul(x, y uint64) (r uint64, overflow bool)
 //@   ensures overflow <==> x * y > 18446744073709551615
 //@   ensures !overflow ==> r == x * y
+
+// CopyBytes returns an exact copy in new memory.
+//@ func CopyBytes(b []byte) (copiedBytes []byte)
+//@   for C10 C13
+//@   ensures [nilStaysNil] len(b) == 0 && cap(b) == 0 ==> len(copiedBytes) == 0
+//@   ensures [newMemorySameBytes] len(copiedBytes) == len(b) && (len(b) > 0 ==> fresh(copiedBytes)) && (forall i int :: 0 <= i && i < len(b) ==> copiedBytes[i] == b[i])
